@@ -217,11 +217,16 @@ def roots(conf: str = "shipped", first: str = "") -> Dict:
         cp = common_prefix(vals)
         cp = cp[: cp.index("{")] if "{" in cp else cp
         rootof[n] = cp
-    a, b = names[0], names[1]
+    a = names[0]
+    same = [n for n in names[1:] if pcs[n][0].path_mapping == pcs[a][0].path_mapping]     # configurations sharing the path vocabulary
+    b = same[0] if same else names[1]
     ta, tb = pcs[a][0].path_templates, pcs[b][0].path_templates
+    if not same:
+        # different vocabularies: only cross-configuration disjointness is claimed
+        ta_, tb_ = ta, tb
     t.queries += 1
-    same = list(ta.keys()) == list(tb.keys()) and all(ta[k][len(rootof[a]):] == tb[k][len(rootof[b]):] for k in ta)
-    if same and rootof[a] != rootof[b]:
+    ok = (not same) or (list(ta.keys()) == list(tb.keys()) and all(ta[k][len(rootof[a]):] == tb[k][len(rootof[b]):] for k in ta))
+    if ok and rootof[a] != rootof[b]:
         t.discharged += 1
         t.samples.append({"roots": rootof})
     else:
